@@ -23,7 +23,7 @@ const pkg = "pkg/redis"
 
 var Def = driver.PropDef{
 	ID: "C10",
-	Explanation: "Structural necessary conditions of the RESP codec in pkg/redis, checked on every path: " +
+	Explanation: "Structural necessary conditions of the RESP codec in pkg/redis, checked on every path (unexported non-anchor helpers of the package are looked through: their bodies are inlined, up to two levels, with parameters bound to the arguments): " +
 		"R1 byte accounting (per function, on every successful path the updates of Decoder.offset balance the bytes consumed from Decoder.r: ReadByte/UnreadByte <-> +-1, ReadBytes / io.ReadFull <-> len(buffer); offset starts at 0; MustDecodeOpt reports it); " +
 		"R2 type-tag bijection (the five respType constants are + - : $ *; decoder case K builds &T{} and calls T's body decoder iff the encoder's case *T emits K before T's body encoder; inline commands only at depth 0; nested elements are decoded at depth+1); " +
 		"R3 length domain (interval walk over the comparisons of the decoded length with constants: allocation only for n >= 0, nil exactly for n = -1, error for n <= -2); " +
@@ -40,7 +40,17 @@ type rs struct {
 	c    *core.Ctx
 	pk   *packages.Package
 	info *types.Info
+	inl  *flow.Inliner // helper calls inlined, the anchors of the rule set kept as calls
+	flat *flow.Inliner // R6 only: the line/terminator writers are inlined into their callers as well
 }
+
+// anchors are the functions the rules reason about by name; everything else in
+// the package that is unexported counts as a helper and is looked through.
+var anchors = map[string]bool{"decodeResp": true, "decodeType": true, "decodeText": true, "decodeInt": true, "decodeBulkBytes": true, "decodeArray": true,
+	"decodeSingleLineBulkBytesArray": true, "encodeResp": true, "encodeType": true, "encodeString": true, "encodeText": true, "encodeInt": true,
+	"encodeBulkBytes": true, "encodeArray": true, "itos": true}
+
+var flatKeep = map[string]bool{"encodeResp": true, "encodeType": true, "encodeInt": true, "itos": true}
 
 func Run(c *core.Ctx) {
 	pk := c.Pkg(pkg)
@@ -48,7 +58,9 @@ func Run(c *core.Ctx) {
 		c.Undecidedf("anchor", pkg, token.NoPos, "package not loaded")
 		return
 	}
-	r := &rs{c, pk, pk.TypesInfo}
+	r := &rs{c: c, pk: pk, info: pk.TypesInfo}
+	r.inl = flow.NewInliner(c.Program, func(f *types.Func) bool { return f.Exported() || anchors[f.Name()] })
+	r.flat = flow.NewInliner(c.Program, func(f *types.Func) bool { return f.Exported() || flatKeep[f.Name()] })
 	r.r1()
 	r.r2()
 	r.lengthDomain("decodeBulkBytes")
@@ -71,7 +83,10 @@ func (r *rs) isField(e ast.Expr, typ, field string) bool {
 	return core.IsFieldNamed(r.info, e, typ, field)
 }
 
-func (r *rs) method(recv, name string) *core.Fn { return r.c.Func(pkg, recv, name) }
+func (r *rs) method(recv, name string) *core.Fn { return r.inl.Fn(r.c.Func(pkg, recv, name)) }
+
+// flatMethod is method with the text/terminator writers inlined too (R6).
+func (r *rs) flatMethod(recv, name string) *core.Fn { return r.flat.Fn(r.c.Func(pkg, recv, name)) }
 
 func param(info *types.Info, fn *core.Fn, i int) types.Object {
 	k := 0
@@ -86,12 +101,17 @@ func param(info *types.Info, fn *core.Fn, i int) types.Object {
 	return nil
 }
 
+// decls lists the production functions of the package as inlined views.
 func (r *rs) decls() []*ast.FuncDecl {
 	var out []*ast.FuncDecl
 	for _, f := range r.pk.Syntax {
+		if core.IsTestFile(r.c.Fset, f) {
+			continue
+		}
 		for _, d := range f.Decls {
 			if fd, ok := d.(*ast.FuncDecl); ok && fd.Body != nil {
-				out = append(out, fd)
+				obj, _ := r.info.Defs[fd.Name].(*types.Func)
+				out = append(out, r.inl.Fn(&core.Fn{Obj: obj, Decl: fd, Pkg: r.pk}).Decl)
 			}
 		}
 	}
@@ -442,7 +462,7 @@ func (r *rs) r1() {
 		c.Undecidedf("instances", "R1.init", token.NoPos, "only %d Decoder literals found, 2 confirmed by hand", lits)
 	}
 	// MustDecodeOpt reports the decoder's own offset
-	if fn := c.Func(pkg, "", "MustDecodeOpt"); fn != nil {
+	if fn := r.inl.Fn(c.Func(pkg, "", "MustDecodeOpt")); fn != nil {
 		_, b := pat.Stmt("_resp, _err = _d.decodeResp(0)").Find(info, fn.Decl.Body, nil)
 		var ret ast.Node
 		if b != nil {
